@@ -107,6 +107,16 @@ def run(ck):
             if got != want:
                 ck.violation(f"component_{kind}_point({m[1]}) returned {got[0]:#x},.. instead of the group result", {"failing_input_found": True, "program": progs[name]}, key=f"value:{kind}:{m[1]}")
             job(name, snap, None, True, f"honest {kind}", name)
+            if kind in ("neg", "sub"):
+                # returned coordinates moved together by one offset / singly: the result must be uniquely determined
+                for tag_, dx, dy in (("both returned coordinates shifted by the same offset", 1, 1), ("both shifted by opposite offsets", 1, R - 1),
+                                     ("returned x shifted", 1, 0), ("returned y shifted", 0, 1)):
+                    dlt = rng.scalar() or 1
+                    w2 = list(snap.wits)
+                    if res[-2] == res[-1] or snap.wits[res[-2]] is None: continue
+                    w2[res[-2]] = (w2[res[-2]] + dx * dlt) % R; w2[res[-1]] = (w2[res[-1]] + dy * dlt) % R
+                    if kind == "neg" and dy and res[-1] < FIRST + 4: continue      # y wire shared with the input: not a free witness
+                    job(f"{name}_sh{dx}{dy % 7}", snap, w2, False, f"{kind}: {tag_}", name)
             for (row, ops, w2) in ghost_operand_assignments(snap, FIRST + 4):
                 nm = f"{name}_ghost{row}"
                 job(nm, snap, w2, False, f"{kind}: gadget-allocated free operand replaced by the second root (ghost point)", name)
@@ -203,7 +213,7 @@ def run(ck):
             ck.violation(f"{tag}: rows of the real layout satisfiable={got}, property requires {expect[nm]} ({meta[prog][:2]})",
                          {"failing_input_found": True, "program": progs[prog], "template": tag}, key=f"{tag}")
     for nm, over in composer.second_opinion(ck, jobs, expect, progs, lambda n: info[n][1], "c12_rp",
-                                            lambda n: n.endswith(("_solved", "_other", "_p0", "_bit", "_cx3y3", "_cxyx3", "_cxyy3")) or "_ghost" in n or (n.startswith("selid") and expect.get(n) is False), limit=14 if quick else 60):
+                                            lambda n: n.endswith(("_solved", "_other", "_p0", "_bit", "_cx3y3", "_cxyx3", "_cxyy3", "_sh11", "_sh16")) or "_ghost" in n or (n.startswith("selid") and expect.get(n) is False), limit=14 if quick else 60):
         tag, prog = info[nm]
         ck.violation(f"{tag}: the REAL prover produced a proof for this assignment and the verifier accepted it ({meta[prog][:2]})",
                      {"failing_input_found": True, "program": progs[prog], "witness_overrides": {str(i): hx(v) for i, v in over.items()}, "template": tag}, key="accepted:" + tag[:40])
